@@ -131,8 +131,11 @@ func c56Target(endpoint string) resolver.Target {
 
 func c56Install(e **c56Env) func() {
 	old := internal.NewNetResolver
+	oldTO := ResolvingTimeout
 	internal.NewNetResolver = func(string) (internal.NetResolver, error) { return *e, nil }
-	return func() { internal.NewNetResolver = old }
+	// lookups of scripted duration (up to > MinResolutionInterval) must be able to succeed
+	ResolvingTimeout = 10 * time.Minute
+	return func() { internal.NewNetResolver = old; ResolvingTimeout = oldTO }
 }
 
 func (e *c56Env) quiescent() {
@@ -263,7 +266,7 @@ func TestVerifC56Random(t *testing.T) {
 	gaps := []time.Duration{0, time.Millisecond, 640 * time.Millisecond, time.Second, 1500 * time.Millisecond, 2 * time.Second,
 		5 * time.Second, 10 * time.Second, 29999 * time.Millisecond, 30 * time.Second, 30001 * time.Millisecond,
 		45 * time.Second, 150 * time.Second}
-	durs := []time.Duration{0, 0, 0, time.Millisecond, 500 * time.Millisecond, 3 * time.Second}
+	durs := []time.Duration{0, 0, 0, time.Millisecond, 500 * time.Millisecond, 3 * time.Second, 20 * time.Second, 45 * time.Second}
 	var sum c56Summary
 	var cur *c56Env
 	defer c56Install(&cur)()
